@@ -351,45 +351,57 @@ def lit (lex dt : Str) (tag : Option Str) : T := .lit lex dt tag
 /-- the tag of an rdf:dirLangString literal: `language--direction` -/
 def dirTag (lang dir : Str) : Str := lang ++ asc "--" ++ dir
 
+/-- `Members["@language"]` / `Members["@direction"]` through expandedString: absent, error, or the string -/
+def tagOf (key : Str) : Option Exp → Except Err (Option Str)
+  | none => .ok none
+  | some e => (expandedString key e).map some
+
+/-- `atLangageKnown && !isWellFormedLiteralLanguageTag(litTagLanguage)` -/
+def langBad : Option Str → Bool
+  | some l => !isWellFormedLang l
+  | none => false
+
+/-- `atDirectionKnown && !isWellFormedLiteralBaseDirectionTag(litTagBaseDirection)` -/
+def dirBad : Option Str → Bool
+  | some d => !isWellFormedDir d
+  | none => false
+
+/-- the `if len(lit.Datatype) == 0 { … }` block of the string case: no explicit datatype, validated
+    language (`lang?`) and direction (`dir?`), at least one of them known -/
+def taggedString (cfg : Cfg) (g s : Option T) (p lex : Str) (lang? dir? : Option Str) (n : Nat) : R :=
+  let finish (dt : Str) (tag : Option Str) : R := .ok [⟨s, p, some (lit lex (if dt = [] then xsdString else dt) tag), g⟩] n
+  let lang := lang?.getD []
+  match dir? with
+  | some dir =>
+    match cfg.dir with
+    | .none =>
+      if lang?.isSome then finish rdfLangString (some lang) else finish [] none
+    | .i18n => finish (i18nNs ++ lowerAscii lang ++ [0x5f] ++ dir) none
+    | .compound =>
+      let node : T := .bnode (.fresh n)
+      .ok ([⟨s, p, some node, g⟩,
+            ⟨some node, rdfValue, some (lit lex xsdString none), g⟩,
+            ⟨some node, rdfDirection, some (lit dir xsdString none), g⟩] ++
+           (if lang?.isSome then [⟨some node, rdfLanguage, some (lit (lowerAscii lang) xsdString none), g⟩] else []))
+          (n + 1)
+    | .other => finish rdfDirLangString (some (dirTag lang dir))
+  | none =>
+    if lang?.isSome then finish rdfLangString (some lang) else finish [] none
+
 /-- the `inspectjson.StringValue` case of decodeValueNode: `@language` / `@direction` handling;
     `dt0` = the explicit datatype ("" = none) -/
 def decodeStringValue (cfg : Cfg) (g s : Option T) (p : Str) (dt0 lex : Str) (atLang atDir : Option Exp) (n : Nat) : R :=
-  let finish (dt : Str) (tag : Option Str) : R := .ok [⟨s, p, some (lit lex (if dt = [] then xsdString else dt) tag), g⟩] n
-  if atLang.isNone && atDir.isNone then finish dt0 none else
-  let langR : Except Err (Option Str) :=
-    match atLang with
-    | some l => (expandedString kLanguage l).map some
-    | none => .ok none
-  match langR with
+  let finish (dt : Str) : R := .ok [⟨s, p, some (lit lex (if dt = [] then xsdString else dt) none), g⟩] n
+  if atLang.isNone && atDir.isNone then finish dt0 else
+  match tagOf kLanguage atLang with
   | .error e => .err e []
   | .ok lang? =>
-    if (match lang? with | some l => !isWellFormedLang l | none => false) then .ok [] n else
-    let dirR : Except Err (Option Str) :=
-      match atDir with
-      | some d => (expandedString kDirection d).map some
-      | none => .ok none
-    match dirR with
+    if langBad lang? then .ok [] n else
+    match tagOf kDirection atDir with
     | .error e => .err e []
     | .ok dir? =>
-      if (match dir? with | some d => !isWellFormedDir d | none => false) then .ok [] n else
-      let lang := lang?.getD []
-      if dt0 ≠ [] then finish dt0 none else
-      match dir? with
-      | some dir =>
-        match cfg.dir with
-        | .none =>
-          if lang?.isSome then finish rdfLangString (some lang) else finish [] none
-        | .i18n => finish (i18nNs ++ lowerAscii lang ++ [0x5f] ++ dir) none
-        | .compound =>
-          let node : T := .bnode (.fresh n)
-          .ok ([⟨s, p, some node, g⟩,
-                ⟨some node, rdfValue, some (lit lex xsdString none), g⟩,
-                ⟨some node, rdfDirection, some (lit dir xsdString none), g⟩] ++
-               (if lang?.isSome then [⟨some node, rdfLanguage, some (lit (lowerAscii lang) xsdString none), g⟩] else []))
-              (n + 1)
-        | .other => finish rdfDirLangString (some (dirTag lang dir))
-      | none =>
-        if lang?.isSome then finish rdfLangString (some lang) else finish [] none
+      if dirBad dir? then .ok [] n else
+      if dt0 ≠ [] then finish dt0 else taggedString cfg g s p lex lang? dir? n
 
 /-- decodeValueNode after `@type` was read: the `@value` primitive `v` (with its JSON text) -/
 def decodeValuePrim (cfg : Cfg) (g s : Option T) (p : Str) (dt0 : Str) (atLang atDir : Option Exp)
